@@ -167,6 +167,95 @@ func c13(c *Ctx) {
 		}
 	}
 
+	// ---- R1e: nothing that can reject by panicking runs after a write-reaching call of the same function
+	mayPanic := map[*ssa.Function]int{}
+	var mp func(f *ssa.Function, d int) bool
+	mp = func(f *ssa.Function, d int) bool {
+		if f == nil || f.Blocks == nil || d > 8 {
+			return false
+		}
+		switch mayPanic[f] {
+		case 1:
+			return true
+		case 2, 3:
+			return false
+		}
+		mayPanic[f] = 3
+		res := false
+		eachInstr(f, func(i ssa.Instruction) {
+			if _, ok := i.(*ssa.Panic); ok {
+				res = true
+			}
+			if ci, ok := i.(ssa.CallInstruction); ok && !res {
+				for _, cal := range p.modCallees(ci) {
+					rel := relPkg(cal)
+					if rel == "internal/logger" || strings.HasPrefix(rel, "?") {
+						continue
+					}
+					if mp(cal, d+1) {
+						res = true
+					}
+				}
+			}
+		})
+		if res {
+			mayPanic[f] = 1
+		} else {
+			mayPanic[f] = 2
+		}
+		return res
+	}
+	for _, f := range p.FuncsIn("") {
+		var wcalls []ssa.CallInstruction
+		eachInstr(f, func(i ssa.Instruction) {
+			if ci, ok := i.(ssa.CallInstruction); ok {
+				for _, cal := range p.modCallees(ci) {
+					if reach[cal] {
+						wcalls = append(wcalls, ci)
+						break
+					}
+				}
+			}
+		})
+		if len(wcalls) == 0 || f.Object() == nil {
+			continue
+		}
+		eachInstr(f, func(i ssa.Instruction) {
+			ci, ok := i.(ssa.CallInstruction)
+			if !ok {
+				return
+			}
+			isW := false
+			for _, w := range wcalls {
+				if w == ci {
+					isW = true
+				}
+			}
+			if isW {
+				return
+			}
+			var rej *ssa.Function
+			for _, cal := range p.modCallees(ci) {
+				rel := relPkg(cal)
+				// validation lives in the stub-configuration layer (root package When/matchers, arg)
+				if (rel == "" || rel == "arg") && mp(cal, 0) {
+					rej = cal
+				}
+			}
+			if rej == nil {
+				return
+			}
+			for _, w := range wcalls {
+				if reachableAfter(w, i) {
+					r.Bad("C13.R1", "validation "+shortName(rej)+" after "+calleeShort(w)+" in "+shortName(f), p.Pos(posOf(i)),
+						"a call that can reject the configuration by panicking ("+shortName(rej)+") runs after "+calleeShort(w)+" already patched the target: an ill-formed configuration panics but leaves the previously un-mocked target patched")
+					return
+				}
+			}
+			r.OK("C13.R1", "validation "+shortName(rej)+" precedes the write in "+shortName(f), p.Pos(posOf(i)), "rejecting call is not reachable after a write-reaching call")
+		})
+	}
+
 	// ---- R1b: signature check on every static path from checked entry points to the installer
 	sigEq := p.Fn("internal/patch", "SignatureEquals")
 	var installer *ssa.Function
@@ -344,6 +433,15 @@ func c13(c *Ctx) {
 
 	// ---- R5 reject conditions compare the right quantities
 	c13Counts(p, r)
+	// ---- R6 a value whose size does not fit is rejected, never reinterpreted (shared with C09.R3)
+	var convs []*ssa.Function
+	for _, f := range p.FuncsIn("arg") {
+		if len(callsTo(f, "reflect.Zero")) > 0 {
+			convs = append(convs, f)
+		}
+	}
+	checkSizeGuards(p, r, "C13.R6", convs)
+	r.Floor("C13.R6", 2)
 }
 
 func normStem(s string) string {
